@@ -115,6 +115,17 @@ def oracle(sc):
     again = core.impl(lambda: float(mach.score((sc["y"], sc["z"]) if sc["jfa"] else sc["z"], sts)))
     if isinstance(again, core.ImplError) or not core.close(s, again, 1e-12, 1e-12):
         return {"sig": "score-of-the-same-probe-changes", "what": f"scoring the same list of {len(sts)} statistics twice: {s} then {again!r}"}
+    # the same statistics object, changed in place (more frames accumulated with +=), is a new probe: the second score is that of its
+    # current content (compared with a fresh object of equal content)
+    if sts:
+        marg_ = (sc["y"], sc["z"]) if sc["jfa"] else sc["z"]
+        more = gen.mk_stats(C, D, np.full(C, 0.75), (m + 0.3) * 0.75, np.zeros((C, D)), 3)
+        sts[0] += more
+        after = core.impl(lambda: float(mach.score(marg_, sts)))
+        fresh = [gen.mk_stats(C, D, np.array(s_.n, float), np.array(s_.sum_px, float), np.zeros((C, D)), int(s_.t)) for s_ in sts]
+        expect = core.impl(lambda: float(mach.score(marg_, fresh)))
+        if isinstance(after, core.ImplError) or isinstance(expect, core.ImplError) or not core.close(after, expect, 1e-10, 1e-12):
+            return {"sig": "score-ignores-in-place-change-of-the-probe", "what": f"after `probe += more frames`: score {after!r}; the same content in fresh objects: {expect!r}"}
     s2 = core.impl(lambda: float(mach.score((sc["y"], sc["z"]) if sc["jfa"] else sc["z"], [pooled])))
     if isinstance(s2, core.ImplError) or not core.close(s, s2, 1e-9, 1e-10):
         return {"sig": "pooling-changes-score", "what": f"list of {len(sts)} statistics: {s}; their sum: {s2!r}"}
